@@ -401,3 +401,10 @@ def run(case):
 SUBS = [
     Sub("containers", strategy, run, quick=8000, thorough=200000, about="op-list histories on all container kinds vs numpy reference covariance"),
 ]
+
+
+def extra(tier, seed):
+    """thorough tier: coverage-guided campaign (atheris / libFuzzer) over the same strategy and oracle, see kverif/fuzz.py"""
+    from ..fuzz import thorough_extra
+
+    return thorough_extra(PROPERTY, [("containers", 20000, 16)], tier, seed)
